@@ -528,7 +528,14 @@ func (h *vHub) collect(digestOnly bool) string {
 		toks = append(toks, "F="+h.sym(pub))
 	}
 	if digestOnly {
-		toks = nil
+		// a concurrent step reports the tables at rest and what the backend was told, not the deliveries
+		var kept []string
+		for _, t := range toks {
+			if strings.HasPrefix(t, "B=") {
+				kept = append(kept, t)
+			}
+		}
+		toks = kept
 	}
 	sort.Strings(toks)
 	return strings.Join(append(toks, h.digest()), " ")
